@@ -773,3 +773,70 @@ def check_koszul_sign(facts, rep):
         rep.violation('E8.F11-koszul-sign', inst, 'TngComplex::connect_edges: ' + '; '.join(probs), where=outer.where())
     else:
         rep.ok('E8.F11-koszul-sign', inst, 'sign (-1)^{weight(k0) - shift(left)} on the family differentiating the right factor')
+
+
+def check_pivot_eligibility(facts, rep):
+    """F13: Gaussian elimination inverts an edge a with LcCob::inv, which reads only the *first* term of the linear
+    combination. It is the inverse of a only if a has exactly one term, an invertible cobordism with a unit coefficient -
+    and that is what the gate LcCob::is_invertible (used by choose_pivot / eliminate_in) must test: every path on which
+    is_invertible can answer true has taken `nterms() == 1` and the answer is `c.is_invertible() && a.is_unit()` of that
+    term. A gate that only asks whether inv() returns something lets a multi-term edge whose first stored term happens to be
+    a unit cylinder through (possible as soon as h or t is a unit) - silently wrong homology, hash-order dependent."""
+    T = "kh::internal::v2::cob::LcCobTrait>::"
+    gate = [b for k, b in facts.bodies.items() if k.endswith(T + 'is_invertible') and 'Lc<' in k]
+    inv = [b for k, b in facts.bodies.items() if k.endswith(T + 'inv') and 'Lc<' in k]
+    if len(gate) != 1 or len(inv) != 1:
+        rep.indet('E8.F13: LcCob::{is_invertible, inv} not found (%d, %d)' % (len(gate), len(inv)))
+        return
+    gate, inv = gate[0], inv[0]
+    rep.saw(gate)
+    rep.saw(inv)
+
+    def dk(t):
+        return re.sub(r'\^_ref__', '^', re.sub(r'#\d+\.\d+', '', show(t, -1000))).replace('&', '').replace('*', '')
+    # does inv look at the first term only?
+    first_only = False
+    for p in SymEx(inv, max_paths=2000).run():
+        if p.end == 'return' and dk(p.ret).startswith('Option::Some'):
+            nexts = [e for e in p.calls() if e.name.endswith('::next')]
+            loops = [e for e in p.calls() if e.name.split('::')[-1] in ('nterms', 'len', 'count')]
+            if len(nexts) == 1 and not loops:
+                first_only = True
+    inst = 'LcCob::is_invertible|true only for a single term with invertible cobordism and unit coefficient'
+    if not first_only:
+        rep.indet('E8.F13: LcCob::inv no longer reads exactly the first term; the eligibility rule has to be re-derived')
+        return
+    true_paths = []
+    for p in SymEx(gate, max_paths=2000).run():
+        if p.end != 'return':
+            continue
+        r = dk(p.ret)
+        if r in ('0', 'false'):
+            continue
+        conds = [(dk(e.term), e.value != 0) for e in p.branches()]
+        true_paths.append((r, conds, p))
+    probs = []
+    for r, conds, p in true_paths:
+        single = ('Eq(nterms(arg1), 1)', True) in conds
+        if not single:
+            probs.append('can answer %s without having tested nterms() == 1' % r[:80])
+            continue
+        rr = strip(p.ret)
+        okv = False
+        if rr[0] == 'call' and rr[1].split('::')[-1] == 'unwrap_or' and dk(rr[2][1]) in ('0', 'false'):
+            m = strip(rr[2][0])
+            if m[0] == 'call' and m[1].split('::')[-1] == 'map':
+                clo = strip(m[2][1])
+                cb = facts.bodies.get(clo[1]) if clo[0] == 'closure' else None
+                if cb is not None:
+                    shapes = {(dk(q.ret), tuple((dk(e.term), e.value != 0) for e in q.branches())) for q in SymEx(cb).run() if q.end == 'return'}
+                    okv = shapes == {('0', (('is_invertible(arg2.0)', False),)), ('is_unit(arg2.1)', (('is_invertible(arg2.0)', True),))} or \
+                        shapes == {('0', (('is_unit(arg2.1)', False),)), ('is_invertible(arg2.0)', (('is_unit(arg2.1)', True),))}
+        if not okv:
+            probs.append('with a single term the answer is %s, expected c.is_invertible() && a.is_unit() of that term' % r[:100])
+    if not true_paths:
+        rep.indet('E8.F13: is_invertible never answers true')
+    elif probs:
+        rep.violation('E8.F13-pivot-eligibility', inst, 'LcCob::is_invertible ' + '; '.join(sorted(set(probs))) + ' - but LcCob::inv inverts only the first term of the combination', where=gate.where())
+    else:
+        rep.ok('E8.F13-pivot-eligibility', inst, 'nterms() == 1 && c.is_invertible() && a.is_unit(); inv() reads that one term')
